@@ -484,4 +484,140 @@ theorem Final.all_out_of_acyclic {g : Graph} {s : KS} (h : Final g s) (hu : NoUn
   have ha_lt : a < g.n := hu _ x.2 _ ha
   exact hmin ⟨a, ha_lt⟩ hna (Reach.single ⟨x.2, ha⟩)
 
+/-! ### determinism: only the ancestor *sets* matter -/
+
+/-- two Kahn states that differ only in the way remaining-ancestor *sets* are listed -/
+structure Sim (s s' : KS) : Prop where
+  queue : s.queue = s'.queue
+  out : s.out = s'.out
+  P : ∀ a b, s.P a b = s'.P a b
+  rem : ∀ m a, a ∈ s.rem m ↔ a ∈ s'.rem m
+
+theorem isEmpty_congr {l l' : List Nat} (h : ∀ a, a ∈ l ↔ a ∈ l') : l.isEmpty = l'.isEmpty := by
+  cases l with
+  | nil =>
+    cases l' with
+    | nil => rfl
+    | cons b l' => exact absurd ((h b).2 (by simp)) (by simp)
+  | cons a l =>
+    cases l' with
+    | nil => exact absurd ((h a).1 (by simp)) (by simp)
+    | cons b l' => rfl
+
+theorem contains_congr {l l' : List Nat} (h : ∀ a, a ∈ l ↔ a ∈ l') (x : Nat) :
+    l.contains x = l'.contains x := by
+  have := h x
+  by_cases hx : x ∈ l
+  · simp [hx, this.1 hx]
+  · have hx' : x ∉ l' := fun h' => hx (this.2 h')
+    simp [hx, hx']
+
+theorem sim_relax {s s' : KS} (h : Sim s s') (i m : Nat) : Sim (relax i s m) (relax i s' m) := by
+  have hr : ∀ a, a ∈ (s.rem m).filter (fun x => x != i) ↔ a ∈ (s'.rem m).filter (fun x => x != i) := by
+    intro a; simp only [List.mem_filter, h.rem m a]
+  have he := isEmpty_congr hr
+  refine ⟨?_, ?_, ?_, ?_⟩
+  · simp only [relax, he, h.queue]
+  · simp only [relax, h.out]
+  · intro a b; simp only [relax, h.P]
+  · intro x a
+    simp only [relax]
+    by_cases hx : x = m
+    · simp only [hx, if_true]; exact hr a
+    · simp only [hx, if_false]; exact h.rem x a
+
+theorem sim_foldl {i : Nat} : ∀ (L : List Nat) {s s' : KS}, Sim s s' →
+    Sim (L.foldl (relax i) s) (L.foldl (relax i) s') := by
+  intro L
+  induction L with
+  | nil => intro s s' h; exact h
+  | cons m L ih => intro s s' h; exact ih (sim_relax h i m)
+
+variable {g g' : Graph}
+
+theorem children_congr (hn : g.n = g'.n) (h : ∀ m a, a ∈ g.anc m ↔ a ∈ g'.anc m) (i : Nat) :
+    g.children i = g'.children i := by
+  unfold Graph.children
+  rw [hn]
+  apply List.filter_congr
+  intro m _
+  exact contains_congr (h m) i
+
+theorem sim_processNode (hn : g.n = g'.n) (h : ∀ m a, a ∈ g.anc m ↔ a ∈ g'.anc m)
+    {s s' : KS} (hs : Sim s s') (i : Nat) : Sim (processNode g s i) (processNode g' s' i) := by
+  unfold processNode
+  rw [children_congr hn h i]
+  apply sim_foldl
+  exact ⟨hs.queue, by simp [hs.out], hs.P, hs.rem⟩
+
+theorem sim_kahn (hn : g.n = g'.n) (h : ∀ m a, a ∈ g.anc m ↔ a ∈ g'.anc m) :
+    ∀ (fuel : Nat) {s s' : KS}, Sim s s' → Sim (kahn g fuel s) (kahn g' fuel s') := by
+  intro fuel
+  induction fuel with
+  | zero => intro s s' hs; exact hs
+  | succ fuel ih =>
+    intro s s' hs
+    unfold kahn
+    have hq := hs.queue
+    cases hq1 : s.queue with
+    | nil =>
+      rw [hq1] at hq
+      rw [← hq]
+      exact hs
+    | cons i q =>
+      rw [hq1] at hq
+      rw [← hq]
+      simp only
+      apply ih
+      apply sim_processNode hn h
+      exact ⟨rfl, hs.out, hs.P, hs.rem⟩
+
+theorem sim_init (hn : g.n = g'.n) (h : ∀ m a, a ∈ g.anc m ↔ a ∈ g'.anc m) : Sim (init g) (init g') := by
+  refine ⟨?_, rfl, fun _ _ => rfl, h⟩
+  unfold init
+  simp only
+  rw [hn]
+  apply List.filter_congr
+  intro m _
+  exact isEmpty_congr (h m)
+
+theorem sim_kahnRun (hn : g.n = g'.n) (h : ∀ m a, a ∈ g.anc m ↔ a ∈ g'.anc m) :
+    Sim (kahnRun g) (kahnRun g') := by
+  unfold kahnRun
+  rw [hn]
+  exact sim_kahn hn h _ (sim_init hn h)
+
+theorem checks_congr (hn : g.n = g'.n) (h : ∀ m a, a ∈ g.anc m ↔ a ∈ g'.anc m) :
+    g.unknownNodes = g'.unknownNodes ∧ g.selfLoops = g'.selfLoops ∧ g.leftAlone = g'.leftAlone := by
+  refine ⟨?_, ?_, ?_⟩
+  · unfold Graph.unknownNodes
+    rw [hn]
+    congr 1
+    funext m
+    rw [Bool.eq_iff_iff]
+    simp only [List.any_eq_true, decide_eq_true_eq]
+    constructor
+    · rintro ⟨a, ha, hle⟩; exact ⟨a, (h m a).1 ha, hle⟩
+    · rintro ⟨a, ha, hle⟩; exact ⟨a, (h m a).2 ha, hle⟩
+  · unfold Graph.selfLoops
+    rw [hn]
+    congr 1
+    funext m
+    exact contains_congr (h m) m
+  · unfold Graph.leftAlone
+    rw [hn]
+    congr 1
+    funext m
+    rw [children_congr hn h m, isEmpty_congr (h m)]
+
+
+/-- `build` depends on the direct-ancestor *sets* only, not on the way they are listed. -/
+theorem build_congr (hn : g.n = g'.n) (h : ∀ m a, a ∈ g.anc m ↔ a ∈ g'.anc m) : build g = build g' := by
+  obtain ⟨c1, c2, c3⟩ := checks_congr hn h
+  have hs := sim_kahnRun hn h
+  have hP : (kahnRun g).P = (kahnRun g').P := funext fun a => funext fun b => hs.P a b
+  unfold build
+  rw [c1, c2, c3]
+  simp only [hs.out, hP, hn]
+
 end LeaspyVerif.Dag
